@@ -46,5 +46,29 @@ PROPS = {
     },
 }
 
+DB_TB = COMMON_TB + [
+    "nerdondon-hopscotch skip list, snap compression, crc crate, parking_lot, arc-swap: exercised through the real code, not modelled",
+    "SimFs semantics (POSIX-like: per-handle cursors, O_APPEND, rename replaces, completed operations are durable and ordered)",
+]
+
+def _db(pid, title, prefixes, technique, text, assumptions, mods, comps=("lsm",)):
+    PROPS[pid] = {
+        "level": "proof", "title": title, "lean_modules": list(mods), "components": list(comps),
+        "sig_prefixes": prefixes, "technique": technique, "level_text": text, "design_ref": "5 (%s)" % pid,
+        "trusted_base": DB_TB, "assumptions": assumptions,
+    }
+
+_db("C01", "Reads return the latest committed write", ["c01:", "c09:"],
+    "Lean 4 refinement proof of the LSM read path + history differential against a BTreeMap oracle",
+    "under construction", ["single client; histories are sampled"], [])
+_db("C07", "Compaction and flushing are invisible to readers", ["c07:", "c09:"],
+    "Lean 4 step-invariance proof + full dumps before/after every compaction", "under construction", [], [])
+_db("C10", "The reported LSM shape is always well formed", ["c10:"],
+    "Lean 4 invariant proof + structural dump check after every quiescence/reopen", "under construction", [], [])
+_db("C03", "A snapshot or iterator sees exactly the state at its creation", ["c03:", "c09:"],
+    "Lean 4 proof + frozen-oracle comparison of live snapshots", "under construction", [], [])
+_db("C11", "Exactly the needed files are on disk", ["c11:"],
+    "Lean 4 proof + directory listing vs state dump", "under construction", [], [])
+
 # properties whose check is registered in MANIFEST.json
 CLAIMED = ["C12", "C14"]
